@@ -136,6 +136,12 @@ def judgeCommand (scope final : Vars) (c : Command) (row : Row) : Bool :=
     | some out => row.stdout = out
     | Option.none => true)
 
+/-- the row the model produces for command `i` of task `tname` (`none`: outside the modelled subsets) -/
+def modelRow (scope : Vars) (env : Str → Option Str) (tname : Str) (i : Nat) (c : Command) : Option Row :=
+  match expand scope c.src, c.stdout scope env with
+  | .ok cmd, some out => some ⟨tname, i, cmd, out, 0⟩
+  | _, _ => Option.none
+
 def judgeTask (f : File) (obs : Obs13) (t : TaskCase) : Bool :=
   let scope := scopeOf f t.name
   (List.range t.commands.length).all (fun i =>
